@@ -34,17 +34,201 @@ def midB (L : List (Nat × Nat)) (p : Nat × Nat) : Bool :=
 theorem midB_iff (L : List (Nat × Nat)) (p : Nat × Nat) :
     midB L p = true ↔ StraightMid {x | x ∈ L} p := by
   simp only [midB, StraightMid, Bool.and_eq_true, Bool.or_eq_true, List.contains_iff_mem, decide_eq_true_eq,
-    Set.mem_setOf_eq, and_assoc]
+    Set.mem_ofPred_eq, and_assoc]
 
 /-- `L` contains no 2 × 2 square. -/
 def NoSq (L : List (Nat × Nat)) : Prop :=
   ¬ ∃ y x, (y, x) ∈ L ∧ (y, x + 1) ∈ L ∧ (y + 1, x) ∈ L ∧ (y + 1, x + 1) ∈ L
 
+/-! ### helpers -/
+
+theorem adjB_eq_true (p q : Nat × Nat) : adjB p q = true ↔
+    (p.1 = q.1 ∧ (p.2 + 1 = q.2 ∨ q.2 + 1 = p.2)) ∨ (p.2 = q.2 ∧ (p.1 + 1 = q.1 ∨ q.1 + 1 = p.1)) := by
+  simp only [adjB, Bool.or_eq_true, Bool.and_eq_true, beq_iff_eq]
+
+theorem adjB_comm (p q : Nat × Nat) : adjB p q = adjB q p := by
+  rw [Bool.eq_iff_iff, adjB_eq_true, adjB_eq_true]
+  omega
+
+theorem adjB_self (p : Nat × Nat) : adjB p p = false := by
+  rw [← Bool.not_eq_true, adjB_eq_true]
+  omega
+
+theorem ne_of_adjB {p q : Nat × Nat} (h : adjB p q = true) : p ≠ q := by
+  rintro rfl
+  rw [adjB_self] at h
+  exact Bool.false_ne_true h
+
+theorem lexLtB_eq_true (p q : Nat × Nat) : lexLtB p q = true ↔ (p.1 < q.1 ∨ (p.1 = q.1 ∧ p.2 < q.2)) := by
+  simp only [lexLtB, Bool.or_eq_true, Bool.and_eq_true, beq_iff_eq, decide_eq_true_eq]
+
+/-- One ordered term of `pairCnt`. -/
+def pterm (x y : Nat × Nat) : Nat := if (lexLtB x y && adjB x y) = true then 1 else 0
+
+theorem pterm_self (x : Nat × Nat) : pterm x x = 0 := by
+  simp [pterm, adjB_self]
+
+theorem pterm_pair {x y : Nat × Nat} (h : x ≠ y) : pterm x y + pterm y x = (adjB x y).toNat := by
+  obtain ⟨x1, x2⟩ := x
+  obtain ⟨y1, y2⟩ := y
+  have h' : x1 ≠ y1 ∨ x2 ≠ y2 := by
+    by_contra hc
+    apply h
+    rw [Prod.mk.injEq]
+    omega
+  unfold pterm
+  rw [adjB_comm (y1, y2) (x1, x2)]
+  cases hA : adjB (x1, x2) (y1, y2)
+  · simp
+  · have h1 := lexLtB_eq_true (x1, x2) (y1, y2)
+    have h2 := lexLtB_eq_true (y1, y2) (x1, x2)
+    simp only at h1 h2
+    cases hl1 : lexLtB (x1, x2) (y1, y2) <;> cases hl2 : lexLtB (y1, y2) (x1, x2) <;>
+      rw [hl1] at h1 <;> rw [hl2] at h2 <;> simp at h1 h2 ⊢ <;> omega
+
+theorem pairCnt_four' (a b c d : Nat × Nat) :
+    pairCnt [a, b, c, d] =
+      (pterm a a + pterm a b + pterm a c + pterm a d) + (pterm b a + pterm b b + pterm b c + pterm b d) +
+      (pterm c a + pterm c b + pterm c c + pterm c d) + (pterm d a + pterm d b + pterm d c + pterm d d) := by
+  simp only [pairCnt, List.map_cons, List.map_nil, List.sum_cons, List.sum_nil, List.countP_cons,
+    List.countP_nil, pterm]
+  omega
+
+/-- The `pairCnt` of four distinct cells is the number of adjacent unordered pairs. -/
+theorem pairCnt_four {a b c d : Nat × Nat} (hab : a ≠ b) (hac : a ≠ c) (had : a ≠ d) (hbc : b ≠ c)
+    (hbd : b ≠ d) (hcd : c ≠ d) :
+    pairCnt [a, b, c, d] = (adjB a b).toNat + (adjB a c).toNat + (adjB a d).toNat + (adjB b c).toNat +
+      (adjB b d).toNat + (adjB c d).toNat := by
+  rw [pairCnt_four', pterm_self, pterm_self, pterm_self, pterm_self, ← pterm_pair hab, ← pterm_pair hac,
+    ← pterm_pair had, ← pterm_pair hbc, ← pterm_pair hbd, ← pterm_pair hcd]
+  omega
+
+/-- Destructuring of a duplicate-free list of length four. -/
+theorem exists_four {α : Type} (L : List α) (hnd : L.Nodup) (hlen : L.length = 4) :
+    ∃ a b c d, L = [a, b, c, d] ∧ a ≠ b ∧ a ≠ c ∧ a ≠ d ∧ b ≠ c ∧ b ≠ d ∧ c ≠ d := by
+  match L, hlen, hnd with
+  | [a, b, c, d], _, hnd =>
+    refine ⟨a, b, c, d, rfl, ?_⟩
+    simp only [List.nodup_cons, List.mem_cons, List.not_mem_nil, or_false, not_or, List.nodup_nil,
+      and_true] at hnd
+    obtain ⟨⟨h1, h2, h3⟩, ⟨h4, h5⟩, h6⟩ := hnd
+    exact ⟨h1, h2, h3, h4, h5, h6.1⟩
+
+/-! ### degrees -/
+
+/-- A cell with a neighbour in `L ⊆ {x, u, v, w}` is adjacent to one of `u`, `v`, `w`. -/
+theorem deg_one {L : List (Nat × Nat)} {x u v w : Nat × Nat}
+    (hL : ∀ q ∈ L, q = x ∨ q = u ∨ q = v ∨ q = w) (h : ∃ q ∈ L, cellGraph.Adj x q) :
+    (adjB x u || adjB x v || adjB x w) = true := by
+  obtain ⟨q, hq, hadj⟩ := h
+  rw [← adjB_iff] at hadj
+  simp only [Bool.or_eq_true]
+  rcases hL q hq with rfl | rfl | rfl | rfl
+  · rw [adjB_self] at hadj
+    exact absurd hadj Bool.false_ne_true
+  · exact Or.inl (Or.inl hadj)
+  · exact Or.inl (Or.inr hadj)
+  · exact Or.inr hadj
+
+/-- The hypotheses "every cell has a neighbour, three adjacent pairs" on `[a, b, c, d]`, as Boolean facts. -/
+theorem bool_facts {a b c d : Nat × Nat} (hab : a ≠ b) (hac : a ≠ c) (had : a ≠ d) (hbc : b ≠ c)
+    (hbd : b ≠ d) (hcd : c ≠ d) (hnb : ∀ p ∈ [a, b, c, d], ∃ q ∈ [a, b, c, d], cellGraph.Adj p q)
+    (hpc : pairCnt [a, b, c, d] = 3) :
+    (adjB a b).toNat + (adjB a c).toNat + (adjB a d).toNat + (adjB b c).toNat + (adjB b d).toNat +
+        (adjB c d).toNat = 3 ∧
+      (adjB a b || adjB a c || adjB a d) = true ∧ (adjB a b || adjB b c || adjB b d) = true ∧
+      (adjB a c || adjB b c || adjB c d) = true ∧ (adjB a d || adjB b d || adjB c d) = true := by
+  refine ⟨by rw [← pairCnt_four hab hac had hbc hbd hcd]; exact hpc, ?_, ?_, ?_, ?_⟩
+  · exact deg_one (by intro q hq; simpa using hq) (hnb a (by simp))
+  · have := deg_one (x := b) (u := a) (v := c) (w := d) (by intro q hq; simp at hq; tauto) (hnb b (by simp))
+    rwa [adjB_comm b a] at this
+  · have := deg_one (x := c) (u := a) (v := b) (w := d) (by intro q hq; simp at hq; tauto) (hnb c (by simp))
+    rwa [adjB_comm c a, adjB_comm c b] at this
+  · have := deg_one (x := d) (u := a) (v := b) (w := c) (by intro q hq; simp at hq; tauto) (hnb d (by simp))
+    rwa [adjB_comm d a, adjB_comm d b, adjB_comm d c] at this
+
+/-! ### reachability inside `L` -/
+
+/-- `x` and `y` are cells of `L` joined by a path of adjacent cells of `L`. -/
+def Rch (L : List (Nat × Nat)) (x y : Nat × Nat) : Prop :=
+  ∃ (hx : x ∈ L) (hy : y ∈ L), (cellGraph.induce {z | z ∈ L}).Reachable ⟨x, hx⟩ ⟨y, hy⟩
+
+theorem Rch.refl {L : List (Nat × Nat)} {x : Nat × Nat} (hx : x ∈ L) : Rch L x x :=
+  ⟨hx, hx, SimpleGraph.Reachable.refl _⟩
+
+theorem Rch.symm {L : List (Nat × Nat)} {x y : Nat × Nat} (h : Rch L x y) : Rch L y x := by
+  obtain ⟨hx, hy, h⟩ := h
+  exact ⟨hy, hx, h.symm⟩
+
+theorem Rch.trans {L : List (Nat × Nat)} {x y z : Nat × Nat} (h1 : Rch L x y) (h2 : Rch L y z) :
+    Rch L x z := by
+  obtain ⟨hx, hy, h1⟩ := h1
+  obtain ⟨_, hz, h2⟩ := h2
+  exact ⟨hx, hz, h1.trans h2⟩
+
+theorem Rch.of_adjB {L : List (Nat × Nat)} {x y : Nat × Nat} (hx : x ∈ L) (hy : y ∈ L)
+    (h : adjB x y = true) : Rch L x y := by
+  refine ⟨hx, hy, SimpleGraph.Adj.reachable ?_⟩
+  rw [SimpleGraph.induce_adj]
+  exact (adjB_iff x y).1 h
+
+theorem Rch.of_adjB' {L : List (Nat × Nat)} {x y : Nat × Nat} (hx : x ∈ L) (hy : y ∈ L)
+    (h : adjB y x = true) : Rch L x y :=
+  (Rch.of_adjB hy hx h).symm
+
+theorem bool_reach : ∀ ab ac ad bc bd cd : Bool,
+    ab.toNat + ac.toNat + ad.toNat + bc.toNat + bd.toNat + cd.toNat = 3 →
+    (ab || ac || ad) = true → (ab || bc || bd) = true → (ac || bc || cd) = true →
+    (ad || bd || cd) = true →
+    (ab || (ac && bc) || (ad && bd) || (ac && cd && bd) || (ad && cd && bc)) = true ∧
+    (ac || (ab && bc) || (ad && cd) || (ab && bd && cd) || (ad && bd && bc)) = true ∧
+    (ad || (ab && bd) || (ac && cd) || (ab && bc && cd) || (ac && bc && bd)) = true := by
+  decide
+
 /-- Four cells, each with a neighbour among them, exactly three adjacent pairs: they are connected. -/
 theorem connected_of_counts (L : List (Nat × Nat)) (hnd : L.Nodup) (hlen : L.length = 4)
     (hnb : ∀ p ∈ L, ∃ q ∈ L, cellGraph.Adj p q) (hpc : pairCnt L = 3) :
     (cellGraph.induce {x | x ∈ L}).Preconnected := by
-  sorry
+  obtain ⟨a, b, c, d, rfl, hab, hac, had, hbc, hbd, hcd⟩ := exists_four L hnd hlen
+  obtain ⟨hcnt, hda, hdb, hdc, hdd⟩ := bool_facts hab hac had hbc hbd hcd hnb hpc
+  obtain ⟨r1, r2, r3⟩ := bool_reach _ _ _ _ _ _ hcnt hda hdb hdc hdd
+  simp only [Bool.or_eq_true, Bool.and_eq_true] at r1 r2 r3
+  have ma : a ∈ [a, b, c, d] := by simp
+  have mb : b ∈ [a, b, c, d] := by simp
+  have mc : c ∈ [a, b, c, d] := by simp
+  have md : d ∈ [a, b, c, d] := by simp
+  have hb : Rch [a, b, c, d] a b := by
+    rcases r1 with (((h | ⟨h1, h2⟩) | ⟨h1, h2⟩) | ⟨⟨h1, h2⟩, h3⟩) | ⟨⟨h1, h2⟩, h3⟩
+    · exact Rch.of_adjB ma mb h
+    · exact (Rch.of_adjB ma mc h1).trans (Rch.of_adjB' mc mb h2)
+    · exact (Rch.of_adjB ma md h1).trans (Rch.of_adjB' md mb h2)
+    · exact ((Rch.of_adjB ma mc h1).trans (Rch.of_adjB mc md h2)).trans (Rch.of_adjB' md mb h3)
+    · exact ((Rch.of_adjB ma md h1).trans (Rch.of_adjB' md mc h2)).trans (Rch.of_adjB' mc mb h3)
+  have hc : Rch [a, b, c, d] a c := by
+    rcases r2 with (((h | ⟨h1, h2⟩) | ⟨h1, h2⟩) | ⟨⟨h1, h2⟩, h3⟩) | ⟨⟨h1, h2⟩, h3⟩
+    · exact Rch.of_adjB ma mc h
+    · exact (Rch.of_adjB ma mb h1).trans (Rch.of_adjB mb mc h2)
+    · exact (Rch.of_adjB ma md h1).trans (Rch.of_adjB' md mc h2)
+    · exact ((Rch.of_adjB ma mb h1).trans (Rch.of_adjB mb md h2)).trans (Rch.of_adjB' md mc h3)
+    · exact ((Rch.of_adjB ma md h1).trans (Rch.of_adjB' md mb h2)).trans (Rch.of_adjB mb mc h3)
+  have hd : Rch [a, b, c, d] a d := by
+    rcases r3 with (((h | ⟨h1, h2⟩) | ⟨h1, h2⟩) | ⟨⟨h1, h2⟩, h3⟩) | ⟨⟨h1, h2⟩, h3⟩
+    · exact Rch.of_adjB ma md h
+    · exact (Rch.of_adjB ma mb h1).trans (Rch.of_adjB mb md h2)
+    · exact (Rch.of_adjB ma mc h1).trans (Rch.of_adjB mc md h2)
+    · exact ((Rch.of_adjB ma mb h1).trans (Rch.of_adjB mb mc h2)).trans (Rch.of_adjB mc md h3)
+    · exact ((Rch.of_adjB ma mc h1).trans (Rch.of_adjB' mc mb h2)).trans (Rch.of_adjB mb md h3)
+  have hall : ∀ x ∈ [a, b, c, d], Rch [a, b, c, d] a x := by
+    intro x hx
+    simp only [List.mem_cons, List.not_mem_nil, or_false] at hx
+    rcases hx with rfl | rfl | rfl | rfl
+    · exact Rch.refl ma
+    · exact hb
+    · exact hc
+    · exact hd
+  rintro ⟨u, hu⟩ ⟨v, hv⟩
+  obtain ⟨_, _, h⟩ := (hall u hu).symm.trans (hall v hv)
+  exact h
 
 /-- Four connected cells that are not a 2 × 2 square: each has a neighbour among them and there are exactly
 three adjacent pairs. -/
